@@ -69,9 +69,17 @@ def _clone(v, memo):
 
 
 class Raised(Exception):
-    def __init__(self, exc_name, node):
+    def __init__(self, exc_name, node, obj=None):
         self.exc_name = exc_name
         self.node = node
+        self.obj = obj          # the exception stand-in (Obj) when the interpreted code built one
+
+
+EXC_BASES = {
+    'KeyError': {'LookupError', 'Exception'}, 'IndexError': {'LookupError', 'Exception'}, 'AttributeError': {'Exception'}, 'TypeError': {'Exception'},
+    'ValueError': {'Exception'}, 'NotImplementedError': {'RuntimeError', 'Exception'}, 'RuntimeError': {'Exception'}, 'AssertionError': {'Exception'},
+    'StopIteration': {'Exception'}, 'ZeroDivisionError': {'ArithmeticError', 'Exception'}, 'Exception': set(), 'LookupError': {'Exception'},
+}
 
 
 class _Return(Exception):
@@ -142,7 +150,7 @@ class Interp:
             cname = c if isinstance(c, str) else getattr(c, '__name__', str(c))
             cname = cname.split('.')[-1]
             if isinstance(o, Obj):
-                out = out or o.kind == cname or cname in self.isa.get(o.kind, ())
+                out = out or o.kind == cname or cname in self.isa.get(o.kind, ()) or cname in EXC_BASES.get(o.kind, ())
             elif cname in ('str', 'int', 'float', 'bool', 'list', 'dict', 'tuple', 'set'):
                 out = out or type(o).__name__ == cname or (cname == 'int' and isinstance(o, bool))
         return out
@@ -244,9 +252,51 @@ class Interp:
             raise _Return(self.ev(s.value, env) if s.value is not None else None)
         elif isinstance(s, ast.Raise):
             name = '?'
+            obj = None
+            if s.exc is None:
+                cur = getattr(env, 'get', None) and (env.get('#exc') if env.has('#exc') else None)
+                if cur is not None:
+                    raise Raised(cur.kind, s, cur)
             if s.exc is not None:
                 name = (dotted(s.exc.func) if isinstance(s.exc, ast.Call) else dotted(s.exc)) or '?'
-            raise Raised(name.split('.')[-1], s)
+                if isinstance(s.exc, ast.Name) and env.has(s.exc.id) and isinstance(env.get(s.exc.id), Obj):
+                    obj = env.get(s.exc.id)
+                    name = obj.kind
+                elif isinstance(s.exc, ast.Call):
+                    try:
+                        args_ = [self.ev(a, env) for a in s.exc.args]
+                    except AnalysisError:
+                        args_ = []
+                    obj = Obj(name.split('.')[-1], args=tuple(args_))
+            raise Raised(name.split('.')[-1], s, obj)
+        elif isinstance(s, ast.Try):
+            try:
+                self.block(s.body, env)
+            except Raised as r:
+                exc = r.obj if r.obj is not None else Obj(r.exc_name, args=())
+                handled = False
+                for h in s.handlers:
+                    names = []
+                    if h.type is not None:
+                        ts = h.type.elts if isinstance(h.type, ast.Tuple) else [h.type]
+                        names = [(dotted(t) or '').split('.')[-1] for t in ts]
+                    bases = {exc.kind} | set(self.isa.get(exc.kind, ())) | EXC_BASES.get(exc.kind, {'Exception'})
+                    if h.type is None or any(n in bases or n == 'BaseException' for n in names):
+                        if h.name:
+                            env.set(h.name, exc)
+                        env.set('#exc', exc)
+                        handled = True
+                        try:
+                            self.block(h.body, env)
+                        finally:
+                            self.block(s.finalbody, env)
+                        break
+                if not handled:
+                    self.block(s.finalbody, env)
+                    raise
+            else:
+                self.block(s.orelse, env)
+                self.block(s.finalbody, env)
         elif isinstance(s, ast.FunctionDef):
             env.set(s.name, Closure(s, env, self))
         elif isinstance(s, ast.Pass):
@@ -304,6 +354,9 @@ class Interp:
                 return {'True': True, 'False': False, 'None': None}[e.id]
             if e.id in ('str', 'int', 'float', 'list', 'dict', 'tuple', 'set', 'bool'):
                 return e.id
+            if e.id in self.stubs and callable(self.stubs[e.id]) and not e.id[:1].isupper():
+                # a function the rule stands in for, used as a value (render_func = render_dml_query)
+                return (lambda _f: (lambda *a, **k: _f(self, *a, **k)))(self.stubs[e.id])
             if self.module is not None:
                 for st in self.module.body:
                     if isinstance(st, ast.Assign) and any(isinstance(t, ast.Name) and t.id == e.id for t in st.targets):
